@@ -14,6 +14,7 @@ from __future__ import annotations
 
 import collections
 import io
+import json
 import os
 import random
 import re
@@ -40,6 +41,10 @@ PINS = [
     'mesonbuild.backend.ninjabackend:NinjaBackend.generate_custom_target',
     'mesonbuild.backend.backends:Backend.get_build_by_default_targets',
     'mesonbuild.backend.backends:Backend.get_testlike_targets',
+    'mesonbuild.build:Build.copy',
+    'mesonbuild.build:Build.merge',
+    'mesonbuild.interpreter.interpreter:Interpreter.do_subproject',
+    'mesonbuild.interpreter.interpreter:Interpreter._do_subproject_meson',
     'mesonbuild.interpreter.interpreter:Interpreter.add_target',
     'mesonbuild.interpreter.interpreter:Interpreter.validate_forbidden_targets',
 ]
@@ -599,7 +604,7 @@ def run_job(job: dict) -> dict:
         env = {k: v for k, v in (env or os.environ).items()
                if k not in ('MESON_RSP_THRESHOLD', 'NINJA', 'CC', 'CFLAGS', 'LDFLAGS', 'DESTDIR')}
         env.update(job['env'])
-    rec['spec'] = None if spec is None else {k: spec[k] for k in ('targets', 'tests', 'collision') if k in spec}
+    rec['spec'] = None if spec is None else {k: spec[k] for k in ('targets', 'tests', 'collision', 'failing_subproject') if k in spec}
     r = projgen.configure(src, bld, job['args'], env=env, timeout=job.get('timeout', 300))
     rec['ok'] = r['ok']
     rec['rc'] = r['rc']
@@ -701,7 +706,66 @@ def run_job(job: dict) -> dict:
             if p and len(p) < 4096 and os.path.lexists(os.path.join(bld, p)):
                 existing.append(py_canon(p))
     rec['fs'] = existing
+    # state isolation: a failed optional subproject must leave no trace — same project without the call, same place
+    fsp = (spec or {}).get('failing_subproject') if spec is not None else None
+    if fsp:
+        if re.search(r'optsp is buildable: NO', r['out']):
+            rec['isolation'] = isolation_diff(job, src, bld, fsp, art, env)
+        else:
+            rec['optsp_did_not_fail'] = True
     return rec
+
+
+def _norm_regen(text: str) -> T.List[str]:
+    """build.ninja lines; in the two statements that list the build definition files (regeneration inputs) the files of
+    the failed subproject are legitimately present (editing them must re-run meson) and are dropped before comparing"""
+    lines = text.split('\n')
+    out = []
+    for ln in lines:
+        if ln.startswith('build build.ninja: REGENERATE_BUILD ') or (ln.startswith('build ') and ln.endswith(': phony ')
+                                                                     and 'meson.build' in ln):
+            toks = [t for t in re.split(r'(?<!\$) ', ln) if 'subprojects/optsp/' not in t]
+            ln = ' '.join(toks)
+        out.append(ln)
+    return out
+
+
+def isolation_diff(job: dict, src: str, bld: str, fsp: dict, art_a: dict, env) -> T.List[str]:
+    def extra(b):
+        res = {}
+        for name in ('intro-tests.json', 'intro-benchmarks.json', 'intro-installed.json', 'intro-install_plan.json'):
+            try:
+                with open(os.path.join(b, 'meson-info', name), encoding='utf-8') as fh:
+                    res[name] = json.load(fh)
+            except (OSError, ValueError):
+                res[name] = None
+        return res
+    ex_a = extra(bld)
+    shutil.rmtree(bld, ignore_errors=True)
+    with open(os.path.join(src, 'meson.build'), 'w', encoding='utf-8') as fh:
+        fh.write(fsp['root_without'])
+    r = projgen.configure(src, bld, job['args'], env=env, timeout=job.get('timeout', 300))
+    if not r['ok']:
+        errs = [l for l in r['out'].split('\n') if 'ERROR' in l]
+        return ['reference project (call removed) does not configure: ' + (errs[0] if errs else '')[:200]]
+    art_b = projgen.read_build(bld)
+    ex_b = extra(bld)
+    diffs: T.List[str] = []
+    la, lb = _norm_regen(art_a['ninja']), _norm_regen(art_b['ninja'])
+    if la != lb:
+        sa, sb = set(la), set(lb)
+        only_a = [l for l in la if l not in sb][:3]
+        only_b = [l for l in lb if l not in sa][:3]
+        diffs.append(f'build.ninja differs: only with the failed subproject {only_a!r}; only without {only_b!r}')
+    for name in ex_a:
+        if ex_a[name] != ex_b[name]:
+            diffs.append(f'{name} differs')
+
+    def tset(art):
+        return sorted((t['name'], t['type'], tuple(t['filename'])) for t in (art['targets'] or []))
+    if tset(art_a) != tset(art_b):
+        diffs.append('intro-targets.json differs')
+    return diffs
 
 
 def safe_job(job: dict) -> dict:
@@ -741,6 +805,20 @@ def make_jobs(ctx: Ctx, scratch: str) -> T.List[dict]:
     jobs: T.List[dict] = []
     for name, files, args in FIXED_PROJECTS:
         jobs.append({'kind': 'files', 'label': name, 'files': files, 'args': args})
+    # an optional subproject that registers a test, a benchmark, an installed target and an override, then fails
+    ffiles = {
+        'meson.build': ("project('opt parent', 'c')\nm = executable('m', 'main.c')\ntest('own', m)\n"
+                        "optsp = subproject('optsp', required: false)\n"
+                        "p = find_program('optprog', required: false)\nif p.found()\n  test('leaked', p)\nendif\n"),
+        'main.c': 'int main(void) { return 0; }\n',
+        'subprojects/optsp/meson.build': ("project('optsp', 'c')\ne = executable('opt exe', 'o.c', install: true)\n"
+                                          "test('opt test', e)\nbenchmark('opt bench', e)\ninstall_headers('oh.h')\n"
+                                          "meson.override_find_program('optprog', e)\nerror('giving up')\n"),
+        'subprojects/optsp/o.c': 'int main(void) { return 0; }\n', 'subprojects/optsp/oh.h': '#pragma once\n'}
+    jobs.append({'kind': 'files', 'label': 'fixed-failing-optional-subproject', 'files': ffiles, 'args': [],
+                 'spec': {'targets': [], 'tests': [], 'failing_subproject': {
+                     'call': "optsp = subproject('optsp', required: false)", 'without': '', 'fail_at': 5,
+                     'root_without': ffiles['meson.build'].replace("optsp = subproject('optsp', required: false)\n", '')}}})
     matrix = projgen.option_matrix()
     per = ctx.scale(3, 40)
     for label, args in matrix:
@@ -772,6 +850,8 @@ def replay_case(rec: dict) -> dict:
     """what is needed to re-run the project"""
     job = rec['job']
     case = {'label': job.get('label'), 'args': job.get('args'), 'kind': job['kind'], 'env': job.get('env')}
+    if (rec.get('spec') or {}).get('failing_subproject'):
+        case['failing_subproject'] = rec['spec']['failing_subproject']
     if job['kind'] == 'corpus':
         case['name'] = job['name']
     else:
@@ -822,6 +902,17 @@ def judge_project(ctx: Ctx, rec: dict, lean_check: T.Optional[str], lean_parse: 
             if ts.get('way'):
                 ctx.tag(f"prereq-way:{ts['way']}:{'benchmark' if ts['benchmark'] else 'test'}:"
                         f"{'subproject' if ts['project'] else 'main'}")
+    if rec.get('optsp_did_not_fail'):
+        ctx.tag('failed-optional-subproject:did-not-fail')
+    if 'isolation' in rec:
+        fsp = (rec.get('spec') or {}).get('failing_subproject') or {}
+        ctx.tag('failed-optional-subproject:' + ('isolated' if not rec['isolation'] else 'LEAK'))
+        ctx.tag(f"failed-optional-subproject:registered-before-failure={min(fsp.get('fail_at', 0), 5)}")
+        ctx.extra['failed_optional_subprojects_compared'] = ctx.extra.get('failed_optional_subprojects_compared', 0) + 1
+        if rec['isolation']:
+            ctx.violation('failed-optional-subproject-leaks-state',
+                          'a failed optional subproject changed what the parent project generates: ' + '; '.join(rec['isolation'])[:600],
+                          case)
     if lean_check is None:
         return
     ctx.extra['disagreements_checked'] = ctx.extra.get('disagreements_checked', 0) + 1
@@ -1430,6 +1521,8 @@ def replay(ctx: Ctx, rep: dict) -> None:
         else:
             job = {'kind': 'files', 'label': case.get('label') or 'replay', 'files': case['files'], 'args': case.get('args') or [],
                    'env': case.get('env')}
+            if case.get('failing_subproject'):
+                job['spec'] = {'targets': [], 'tests': [], 'failing_subproject': case['failing_subproject']}
         job['scratch'] = os.path.join(scratch, 'r')
         rec = run_job(job)
         print('configured:', rec['ok'], rec.get('error'))
